@@ -238,6 +238,21 @@ let history (nodes : pnode array) (nn : int) (idx : int) (last : label option) :
   let base = go idx [] in
   String.concat " " (match last with None -> base | Some l -> base @ [label_str l])
 
+(* Class EVENTS compares the event list of a step modulo the order the mapper properties leave open: two lists are
+   the same observation when one is a permutation of the other that keeps (i) the order of the events of each key and
+   (ii) the position of every PRESS OF A NON-MODIFIER KEY relative to all other events (what is down at the moment a
+   non-modifier key goes down is what C04, C07, C08 speak about; which presses occur is what C03 speaks about;
+   redundancy, C19, is per key).  Canonical form: the segments between presses of non-modifier keys, each
+   stable-sorted by key code. *)
+let canon_events (is_action : int -> bool) (evs : (bool * int) list) : (bool * int) list =
+  let sort_seg seg = List.stable_sort (fun (_, a) (_, b) -> compare a b) (List.rev seg) in
+  let rec go evs seg acc =
+    match evs with
+    | [] -> List.rev_append acc (sort_seg seg)
+    | ((true, c) as e) :: t when is_action c -> go t [] (e :: List.rev_append (sort_seg seg) acc)
+    | e :: t -> go t (e :: seg) acc in
+  go evs [] []
+
 let pressed_set evs = List.sort_uniq compare (List.filter_map (fun (p, c) -> if p then Some c else None) evs)
 
 let check_table (t : table) (max_pairs : int) =
@@ -357,7 +372,8 @@ let check_table (t : table) (max_pairs : int) =
             let rep_m_i = irep_of_model rep_m in
             let held_i' = x_apply_evs p.held_i evs_i in
             let held_m' = x_apply_evs p.held_m evs_m in
-            let d_events = evs_m_i <> e.evs in
+            let spec_action c = x_spec_is_action (n_of_int c) in
+            let d_events = evs_m_i <> e.evs && canon_events spec_action evs_m_i <> canon_events spec_action e.evs in
             let d_repeat = rep_m_i <> e.rep in
             let d_held = sorted_ints held_i' <> sorted_ints held_m' || pressed_set e.evs <> pressed_set evs_m_i in
             let ds = [| d_events || d_repeat; d_events; d_repeat; d_held |] in
